@@ -114,4 +114,33 @@ Definition with_pes (pkt : bytes) (pts : N) : Res bytes :=
   let pay := blit pay 9 s' in
   let pkt := pkt_set_payload pkt pay in             (* SetPayload(pkt, pay) *)
   Ok (upd pkt 3 (N.lor (nthN pkt 3) 16)).           (* WithHasPayloadFlag(pkt) *)
+(* nested module: `Import Pes` does not bring these names into scope *)
+Module Consts.
+(* ---- exported constants of pes/pesheader.go, in source order (coverage: notes/coverage.md) ---- *)
+Definition STREAM_ID_ALL_AUDIO_STREAMS : N := 184.
+Definition STREAM_ID_ALL_VIDEO_STREAMS : N := 185.
+Definition STREAM_ID_PROGRAM_STREAM_MAP : N := 188.
+Definition STREAM_ID_PRIVATE_STREAM_1 : N := 189.
+Definition STREAM_ID_PADDNG_STREAM : N := 190.
+Definition STREAM_ID_PRIVATE_STREAM_2 : N := 191.
+Definition STREAM_ID_ECM_STREAM : N := 240.
+Definition STREAM_ID_EMM_STREAM : N := 241.
+Definition STREAM_ID_DSM_CC_STREAM : N := 242.
+Definition STREAM_ID_ISO_IEC_13552_STREAM : N := 243.
+Definition STREAM_ID_ITU_T_H222_1_TYPE_A : N := 244.
+Definition STREAM_ID_ITU_T_H222_1_TYPE_B : N := 245.
+Definition STREAM_ID_ITU_T_H222_1_TYPE_C : N := 246.
+Definition STREAM_ID_ITU_T_H222_1_TYPE_D : N := 247.
+Definition STREAM_ID_ITU_T_H222_1_TYPE_E : N := 248.
+Definition STREAM_ID_ANCILLARY_STREAM : N := 249.
+Definition STREAM_ID_MPEG_4_SL_PACKETIZED_STREAM : N := 250.
+Definition STREAM_ID_MPEG_4_FLEXMUX_STREAM : N := 251.
+Definition STREAM_ID_METADATA_STREAM : N := 252.
+Definition STREAM_ID_EXTENDED_STREAM_ID : N := 253.
+Definition STREAM_ID_RESERVED : N := 254.
+Definition STREAM_ID_PROGRAM_STREAM_DIRECTORY : N := 255.
+Definition exported_consts : list N :=
+  [STREAM_ID_ALL_AUDIO_STREAMS; STREAM_ID_ALL_VIDEO_STREAMS; STREAM_ID_PROGRAM_STREAM_MAP; STREAM_ID_PRIVATE_STREAM_1; STREAM_ID_PADDNG_STREAM; STREAM_ID_PRIVATE_STREAM_2; STREAM_ID_ECM_STREAM; STREAM_ID_EMM_STREAM; STREAM_ID_DSM_CC_STREAM; STREAM_ID_ISO_IEC_13552_STREAM; STREAM_ID_ITU_T_H222_1_TYPE_A; STREAM_ID_ITU_T_H222_1_TYPE_B; STREAM_ID_ITU_T_H222_1_TYPE_C; STREAM_ID_ITU_T_H222_1_TYPE_D; STREAM_ID_ITU_T_H222_1_TYPE_E; STREAM_ID_ANCILLARY_STREAM; STREAM_ID_MPEG_4_SL_PACKETIZED_STREAM; STREAM_ID_MPEG_4_FLEXMUX_STREAM; STREAM_ID_METADATA_STREAM; STREAM_ID_EXTENDED_STREAM_ID; STREAM_ID_RESERVED; STREAM_ID_PROGRAM_STREAM_DIRECTORY].
+End Consts.
+
 End Pes.
